@@ -396,7 +396,7 @@ HORIZ = dict(
               one_per=2),
     # u8x2 (precision is a run-time value here): tap stages 8 / 4 / 2 / 1 (four rows), 8 / 4 / up to 3 single taps (one row; AVX2: >= 16 taps -> 16 / 8 first,
     # with a quarter of the rounding constant per accumulator lane).  Loads are whole pixels (16 / 8 / 4 / 2 bytes = 8 / 4 / 2 / 1 pixels).
-    u8x2=dict(ty="U8x2", cc=2, sw=32, tf="",
+    u8x2=dict(ty="U8x2", cc=2, sw=32, tf="", four_split_first=True,
               four=[(17, 15), (23, 9), (29, 3), (26, 6), (31, 1), HUGE32],
               one=[(17, 15), (23, 9), (30, 2), (26, 6), (31, 1), HUGE32, (1, 31), (8, 24)],
               one_per=1),
@@ -418,7 +418,7 @@ def harness_text(name, stubs, src, dn, calls):
 %s    fn %s() {
 %s        let stale: [u8; %d] = kani::any();
 %s    }
-""" % (max(dn, 20) + 3, stubs, name, src, dn, calls)
+""" % (max(dn, 34) + 3, stubs, name, src, dn, calls)      # unwind: longest loop = the taps of a window (<= 32) / the bytes compared
 
 
 def horiz_module(d, isa):
@@ -434,9 +434,11 @@ def horiz_module(d, isa):
     code = HORIZ_COMMON % dict(ty=ty, d=d, cc=cc, tf=info.get("tf", "::<14>"))
     hs = []
     # --- four rows, direct
-    groups = groups_of(14, info["four"], 300)
-    for gi, g in enumerate(groups):
-        name = "k9_%s_%s_four_rows_w%d" % (d, isa, gi)
+    groups = [(str(gi), g) for gi, g in enumerate(groups_of(14, info["four"], 300))]
+    if info.get("four_split_first"):                    # the long windows one per harness (u8x2: 1470 s for the pair on a loaded machine)
+        groups = [("0a", groups[0][1][:1]), ("0b", groups[0][1][1:])] + groups[1:]
+    for gi, g in groups:
+        name = "k9_%s_%s_four_rows_w%s" % (d, isa, gi)
         dn = 2 * 4 * cc + SPARE
         code += harness_text(name, s4, src_decl(ty, cc, HSW, 4), dn, call_groups("run4(&src, &n, &stale, &mut d_simd, &mut d_nat);", 14, [g]))
         hs.append(dict(name=name, kind="bounded", covers=2, timeout=1500, props=PROPS,
